@@ -141,6 +141,53 @@ def purity_part(run, pid, calls):
         if other != k:
             call(other)               # A B A
             call(k)
+    # the same LOGICAL arguments in another memory representation (column-major copies of 2-D arrays; non-contiguous views of a larger
+    # buffer): the fingerprint of an array is taken from its logical content, so these events share the memo-table key of the
+    # original call and must give the same answer (compared with the rounded fingerprints: summation order may legitimately differ)
+    def variant(args, kwargs, kind):
+        changed = [False]
+
+        def tr(x):
+            if isinstance(x, np.ndarray) and x.dtype.kind in "fciu" and x.size > 1 and x.ndim in (1, 2):
+                if kind == "F" and x.ndim == 2 and min(x.shape) > 1:
+                    changed[0] = True
+                    return np.asfortranarray(x.copy())
+                if kind == "strided":
+                    big = np.full((2 * x.shape[0],) + x.shape[1:], 7 if x.dtype.kind in "iu" else np.nan, x.dtype)
+                    big[::2] = x
+                    changed[0] = True
+                    return big[::2]
+                return x.copy()
+            return copy.deepcopy(x)
+        a2 = [tr(x) for x in args]
+        k2 = {k_: tr(v) for k_, v in kwargs.items()}
+        return (a2, k2) if changed[0] else None
+
+    nvar = 0
+    for k in range(n):
+        name, fn, args, kwargs, approx = built[k]
+        if name in raised:
+            continue
+        for kind in ("F", "strided"):
+            try:
+                v = variant(args, kwargs, kind)
+            except Exception:
+                v = None
+            if v is None:
+                continue
+            a2, k2 = v
+            ain = fingerprint([a2, k2], np, pd)
+            if ain != fingerprint([args, kwargs], np, pd):
+                continue          # not the same logical arguments after all (e.g. an object the fingerprint cannot see through)
+            try:
+                rfa = fingerprint(fn(*a2, **k2), np, pd, True)
+            except Exception as ex:
+                rfa = "raised:" + type(ex).__name__
+            aout = fingerprint([a2, k2], np, pd)
+            trace.append({"fn": len(built) + k + 1, "ain": num(ain), "aout": num(aout), "res": num(name + "~" + rfa)})
+            meta.append(name + (" [arguments as column-major copies]" if kind == "F" else " [arguments as non-contiguous views]"))
+            nvar += 1
+    run.extra["purity_representation_variants"] = nvar
     fd, path = tempfile.mkstemp(suffix=".ndjson", prefix="purity_")
     with os.fdopen(fd, "w") as f:
         for t in trace:
